@@ -655,8 +655,7 @@ class Facts:
           callers[fn].add(b.path)
         # std blanket impls that forward to a workspace impl: Into -> From, TryInto -> TryFrom, str::parse -> FromStr,
         # ToString -> Display
-        tgt = blanket_target(c.f, self.bodies)
-        if tgt is not None:
+        for tgt in blanket_targets(c.f, self.bodies):
           callees[b.path].add(tgt)
           callers[tgt].add(b.path)
       # closures / coroutines created here, and fn items referenced as values
@@ -754,6 +753,28 @@ def _split_ga(ga):
   return out
 
 
+def blanket_targets(f, bodies):
+  """all workspace impls a call into std / minicbor generic code may call back (see blanket_target); additionally a
+  minicbor Decode/Encode call on a container type (Vec<T>, Option<T>, ..) reaches the impls of every workspace type inside it"""
+  out = []
+  t = blanket_target(f, bodies)
+  if t is not None:
+    out.append(t)
+  fn = f.get('fn')
+  if fn in ('minicbor::Decode::decode', 'minicbor::Encode::encode', 'minicbor::decode', 'minicbor::to_vec', 'minicbor::encode') and (f.get('rcr') != 'ord' and f.get('rcr') != 'ordinals'):
+    ga = _split_ga(f.get('ga'))
+    tys = set()
+    for g in ga:
+      tys |= set(re.findall(r'\b(?:ord|ordinals)::[\w:]+', g))
+    for ty in tys:
+      for trait, method in (('minicbor::Decode', 'decode'), ('minicbor::Encode', 'encode')):
+        if method in fn or fn in ('minicbor::to_vec',):
+          p = _trait_impl(bodies, ty, trait, method)
+          if p is not None and p not in out:
+            out.append(p)
+  return out
+
+
 def blanket_target(f, bodies):
   """raw path of the workspace impl a std blanket impl forwards to, if it exists in the fact base"""
   fn = f.get('fn')
@@ -769,7 +790,31 @@ def blanket_target(f, bodies):
     cand = f'<{ga[0]} as std::fmt::Display>::fmt'
   if cand is not None and cand in bodies:
     return cand
+  # minicbor entry points call back into the workspace Decode / Encode impl of their type argument
+  if fn in ('minicbor::decode', 'minicbor::decode_with') and ga:
+    return _trait_impl(bodies, ga[-1] if fn == 'minicbor::decode' else ga[-1], 'minicbor::Decode', 'decode')
+  if fn in ('minicbor::to_vec', 'minicbor::encode', 'minicbor::to_vec_with') and ga:
+    return _trait_impl(bodies, ga[0], 'minicbor::Encode', 'encode')
   return None
+
+
+_IMPL_INDEX = {}
+
+
+def _trait_impl(bodies, ty, trait, method):
+  key = id(bodies)
+  idx = _IMPL_INDEX.get(key)
+  if idx is None:
+    idx = {}
+    for p in bodies:
+      m = re.match(r'^<(.+?) as ([\w:]+)(<.*>)?>::(\w+)$', p)
+      if m:
+        idx[(m.group(1), m.group(2), m.group(4))] = p
+      m = re.match(r'^.*<impl ([\w:]+)(<.*>)? for (.+?)>::(\w+)$', p)
+      if m:
+        idx[(m.group(3), m.group(1), m.group(4))] = p
+    _IMPL_INDEX[key] = idx
+  return idx.get((ty, trait, method))
 
 
 def _rv_operands(rv):
